@@ -184,6 +184,14 @@ def check(rep, an, tier):
         # declared results
         items = F.ret_items(res)
         for i, lab in enumerate(("Xmin", "Xmax")):
+            if i < len(items) and cfg["n"] is not None:
+                # the reported ends are a function of the system and the target: the request for spaced solutions (n, eps) changes nothing
+                dd = {o.split("|")[0] for o in items[i].flat().data}
+                rep.check("R-NOFLOW", f"{lab} does not depend on the spaced-solution request", not ({"n", "eps"} & dd), where=res.fn.loc(),
+                          construct=f"n, eps ↛ {lab} returned by range_of_solutions", entry=entry, config=res.config,
+                          msg=f"the returned {lab} data-depends on {sorted({'n', 'eps'} & dd)}: some row of it is taken from the spaced solutions "
+                              f"(e.g. a temporary that overwrote the batch of best fits), not from the range computation / the fallback fit")
+        for i, lab in enumerate(("Xmin", "Xmax")):
             if i < len(items):
                 v = items[i].flat()
                 rep.check("R-QTY", f"{lab} in intensity units", None if v.unit in (None, "POLY") else v.unit == U_INT, where=res.fn.loc(),
